@@ -68,6 +68,8 @@ def filter_axioms(eng, mask_arr, n):
     ax.append(z3.ForAll([k], z3.Implies(z3.And(0 <= k, k < n, z3.Select(mask_arr, k)), c >= 1), patterns=[z3.Select(mask_arr, k)]))
     first = IDX(mask_arr, n, z3.IntVal(0))
     ax.append(z3.Implies(c >= 1, z3.And(0 <= first, first < n, z3.Select(mask_arr, first))))
+    second = IDX(mask_arr, n, z3.IntVal(1))
+    ax.append(z3.Implies(c >= 2, z3.And(first < second, second < n, z3.Select(mask_arr, second))))      # instance of the two axioms above at j = 0, 1
     ax.append(z3.Implies(z3.And(n >= 0, c == n), z3.ForAll([j], z3.Implies(z3.And(0 <= j, j < n), IDX(mask_arr, n, j) == j),
                                                          patterns=[IDX(mask_arr, n, j)])))
     # (forall k in range: mask) => c == n, via a witness of a false entry
@@ -76,7 +78,7 @@ def filter_axioms(eng, mask_arr, n):
     eng.axioms.extend(ax)
 
 
-def named_array(eng, lam, base="A"):
+def named_array(eng, lam, base="A", extra_triggers=True):
     """An array constant A with the definitional axiom  forall k. A[k] = lam[k]  (trivial pattern
     A[k]); the same lambda term always gets the same constant, so syntactically equal masks /
     summands share their CNT/IDX/SUM terms."""
@@ -102,7 +104,8 @@ def named_array(eng, lam, base="A"):
                 return
             for ch in t.children():
                 walk(ch)
-    walk(body)
+    if extra_triggers:
+        walk(body)
     eng.axioms.append(z3.ForAll([k], z3.Select(A, k) == body, patterns=pats))
     eng._named[key] = (A, lam)
     return A
@@ -119,14 +122,14 @@ def complement_lemma(eng, A, B, n):
                                  CNT(A, n) + CNT(B, n) == n))
 
 
-def mask_array(eng, st, maskfn):
+def mask_array(eng, st, maskfn, extra_triggers=True):
     k = z3.Int("k!m")
-    return named_array(eng, z3.Lambda([k], maskfn(k)), "M")
+    return named_array(eng, z3.Lambda([k], maskfn(k)), "M", extra_triggers=extra_triggers)
 
 
-def filtered(eng, st, n, maskfn, elemfn, numpy=False, etype=None):
+def filtered(eng, st, n, maskfn, elemfn, numpy=False, etype=None, extra_triggers=True):
     """The subsequence of elemfn(0..n-1) at the positions where maskfn holds."""
-    ma = mask_array(eng, st, maskfn)
+    ma = mask_array(eng, st, maskfn, extra_triggers=extra_triggers)
     n = len_alias(eng, n)
     filter_axioms(eng, ma, n)
     c = CNT(ma, n)
@@ -240,6 +243,8 @@ def m_len(eng, st, args, kwargs, node):
     if isinstance(v, VMaybeNone):
         eng.oblige(st, "len() argument is not None", z3.Not(v.isnone), "safety", node)
         return m_len(eng, st, [v.val], kwargs, node)
+    if isinstance(v, VLabel):
+        return VInt(str_len(eng, v.t))
     raise Unsupported("len(%r)" % (v,))
 
 
@@ -256,8 +261,14 @@ def m_int(eng, st, args, kwargs, node):
     raise Unsupported("int(%r)" % (v,))
 
 
+STRROW = z3.Function("str.of_row", z3.IntSort(), z3.IntSort(), Label)     # str() of row k of the nested sequence with a given id
+
+
 def m_str(eng, st, args, kwargs, node):
     v = args[0]
+    if isinstance(v, VRef) and isinstance(st.heap[v.addr], HSeq) and st.heap[v.addr].note and st.heap[v.addr].note[0] == "row":
+        _, sid, k = st.heap[v.addr].note
+        return VLabel(STRROW(z3.IntVal(sid), k))
     if isinstance(v, VInt):
         if z3.is_int_value(v.t):
             return VStr(str(v.t.as_long()))
@@ -656,7 +667,10 @@ def m_listcomp(eng, st, node):
     def bind(k, silent):
         s = snap.fork()
         s.silent = snap.silent + (1 if silent else 0)
-        eng.assign(gen.target, sg(k), s, node)
+        e_ = sg(k)
+        if not z3.is_int_value(k) and isinstance(e_, (VFloat, VInt, VLabel)):
+            eng.touch(e_)
+        eng.assign(gen.target, e_, s, node)
         return s
 
     # one evaluation with a fresh in-range index emits the (universally quantified) safety obligations
@@ -748,7 +762,19 @@ def m_with(eng, st, node, K):
         st.ghost["effects"] = eff + [("open:" + mode, args[0], list(st.cond()), node.lineno)]
         if node.items[0].optional_vars is not None:
             eng.assign(node.items[0].optional_vars, fobj, st, node)
-        return eng.ex_block(node.body, st, K)
+        if "__lines" in st.env and st.env["__lines"] is not None:
+            raise Unsupported("nested `with open(...)` (line %d)" % node.lineno)
+        st.env["__lines"] = VInt(0)
+        path0 = args[0]
+
+        def after(s_):
+            s_.ghost = dict(s_.ghost)
+            s_.ghost["written"] = tuple(s_.ghost.get("written", ())) + ((path0, mode, s_.env["__lines"].t, node.lineno),)
+            del s_.env["__lines"]
+            return K["next"](s_)
+        K2 = dict(K)
+        K2["next"] = after
+        return eng.ex_block(node.body, st, K2)
     if d in ("simplifier.time_limit", "time_limit"):
         return eng.ex_block(node.body, st, K)
     raise Unsupported("with %s (line %d)" % (d, node.lineno))
@@ -785,6 +811,82 @@ def m_noop(eng, st, args, kwargs, node):
 def m_barrier(eng, st, args, kwargs, node):
     eff = st.ghost.get("effects", [])
     st.ghost["effects"] = eff + [("collective:Barrier", None, list(st.cond()), node.lineno)]
+    return VNone()
+
+
+# ----- lengths of abstract strings, lines written to files ------------------------------------------
+STRLEN = z3.Function("str.len", Label, z3.IntSort())
+STRNL = z3.Function("str.newlines", Label, z3.IntSort())        # number of newline characters
+
+
+def str_len(eng, t):
+    """len() of an abstract string: additive over concatenation, known for literals (A-str)."""
+    key = ("strlen-axioms",)
+    if key not in eng._axiom_keys:
+        eng._axiom_keys.add(key)
+        a, b = z3.Consts("a!sl b!sl", Label)
+        cat = eng.label_fn("concat", Label, Label)
+        eng.axioms.append(z3.ForAll([a, b], z3.And(STRLEN(cat(a, b)) == STRLEN(a) + STRLEN(b), STRNL(cat(a, b)) == STRNL(a) + STRNL(b)), patterns=[cat(a, b)]))
+        eng.axioms.append(z3.ForAll([a], z3.And(STRLEN(a) >= 0, STRNL(a) >= 0, STRNL(a) <= STRLEN(a)), patterns=[STRLEN(a)]))
+    for lit, c in list(Engine_labels().items()):
+        k2 = ("strlen-lit", lit)
+        if k2 not in eng._axiom_keys:
+            eng._axiom_keys.add(k2)
+            eng.axioms.append(z3.And(STRLEN(c) == len(lit), STRNL(c) == lit.count("\n")))
+    return STRLEN(t)
+
+
+def Engine_labels():
+    from .engine import Engine
+    return Engine._labels
+
+
+def lines_add(eng, st, k, node):
+    if "__lines" not in st.env:
+        raise Unsupported("write to a file that was not opened by an enclosing `with open(...)` (line %d)" % node.lineno)
+    st.env["__lines"] = VInt(st.env["__lines"].t + k)
+
+
+def m_print_to_file(eng, st, node):
+    """print(<one value>, file=f): one line, plus the newlines contained in a string argument"""
+    call = node.value
+    args = [eng.ev(a, st) for a in call.args]
+    if len(args) != 1:
+        raise Unsupported("print(..., file=f) with %d values (line %d)" % (len(args), node.lineno))
+    v = args[0]
+    if isinstance(v, (VFloat, VInt, VBool)):
+        extra = z3.IntVal(0)
+    elif isinstance(v, VLabel):
+        str_len(eng, v.t)
+        extra = STRNL(v.t)
+    elif isinstance(v, VStr):
+        extra = z3.IntVal(v.s.count("\n"))
+    else:
+        raise Unsupported("print of %r to a file (line %d)" % (v, node.lineno))
+    lines_add(eng, st, 1 + extra, node)
+
+
+def m_prettyprinter(eng, st, args, kwargs, node):
+    if "width" not in kwargs or "stream" not in kwargs:
+        raise Unsupported("PrettyPrinter without width= / stream= (line %d)" % node.lineno)
+    return st.alloc(HObj("PrettyPrinter", {"width": kwargs["width"], "stream": kwargs["stream"]}))
+
+
+def m_pprint(eng, st, recv, args, kwargs, node):
+    """PrettyPrinter(width=w).pprint(s) for a string s: one physical line iff len(repr(s)) <= w, otherwise the string is split
+    over several lines (pprint._pprint_str).  len(repr(s)) = len(s) + 2 + (number of newlines) for strings without backslashes,
+    control characters or double quotes (A-str: the text of a label array)."""
+    o = st.heap[recv.addr] if isinstance(recv, VRef) else None
+    if not (isinstance(o, HObj) and o.cls == "PrettyPrinter"):
+        raise Unsupported("pprint on %r" % (recv,))
+    v = args[0]
+    if not isinstance(v, VLabel):
+        raise Unsupported("pprint of %r" % (v,))
+    str_len(eng, v.t)
+    w = eng.as_int(o.fields["width"])
+    many = z3.Int(fresh_name("pplines"))
+    eng.axioms.append(many >= 2)
+    lines_add(eng, st, z3.If(STRLEN(v.t) + 2 + STRNL(v.t) <= w, 1, many), node)
     return VNone()
 
 
@@ -1182,6 +1284,8 @@ def install(eng):
     M["os.system"] = effect("system")
     M["sys.setrecursionlimit"] = m_noop
     M["comm.Barrier"] = m_barrier
+    M["pprint.PrettyPrinter"] = m_prettyprinter
+    eng.methods["pprint"] = m_pprint
     eng.methods.update({"append": m_append, "copy": m_copy, "cumsum": m_cumsum, "astype": m_astype,
                         "keys": m_dict_keys, "readlines": m_readlines, "lstrip": m_lstrip, "isdigit": m_isdigit})
     eng.module_consts.update({
